@@ -64,6 +64,9 @@ def run_item(item):
             for h in range(0, nh + 1, step):
                 t = ER.run_program(spec, make_policy(['cancel', desc[1], desc[2], h]))
                 out.append((['script', t['choices']], t))
+        elif desc[0] == 'hold_all':
+            for t in ER.hold_schedules(spec, desc[1]):
+                out.append((['script', t['choices']], t))
         elif desc[0] == 'hold_depth':
             t = hold_depth_run(spec, desc[1])
             out.append((['script', t['choices']], t))
@@ -257,8 +260,10 @@ def corpus_items(monitors_=None):
             items.append({'name': name, 'spec': spec, 'schedules': sch, 'monitors': monitors_})
     from . import mkcorpus
     for name, spec in mkcorpus.motif_specs().items():
-        items.append({'name': 'motif:' + name, 'spec': spec, 'schedules': [['rand', 21, 0.0], ['rand', 22, 0.3], ['enum', 16]],
-                      'monitors': monitors_})
+        sch = [['rand', 21, 0.0], ['rand', 22, 0.3], ['enum', 16]]
+        if '/' not in name:
+            sch.append(['hold_all', 300])      # the motif itself (not its variants): every single-delayed-node schedule
+        items.append({'name': 'motif:' + name, 'spec': spec, 'schedules': sch, 'monitors': monitors_})
     return items
 
 
@@ -288,6 +293,51 @@ SCHED_TEXT = ('generated programs (profile cycle {profiles}; 3–8 declared node
               'injections and bursts, and for every third program all quiescent-point orders (≤ {enum} schedules); corpus of past '
               'defects first. Every trace is replayed handle by handle on the Lean model (lock-step) and checked by the monitors '
               'of this property. distinct = distinct (program, choice sequence); non-trivial = ≥ 2 node bodies started.')
+
+
+def _sat_worker(chunk):
+    """C13 on a saturated pool (trace-only: the model has no pool queue): pipelines with thread / process nodes on a virtual
+    pool with one or two workers; further jobs wait in the pool's queue and start when a worker is free — unless they were
+    withdrawn.  After chart.run has ended (error, or cancellation at a random handle) nothing may start."""
+    from . import engine_run as ER, monitors, progen
+    _init_worker()
+    out = []
+    for pseed in chunk:
+        rng = random.Random(pseed)
+        spec = progen.gen_spec(rng, rng.choice(['plain', 'plain', 'mixed', 'oneof']), 4, 8, fail_p=0.3, retry_p=0.2,
+                               modes=('thread', 'thread', 'coro', 'process'), cb_p=0.0, hash_fail_p=0.0)
+        spec['pool_capacity'] = rng.choice([1, 1, 2])
+        rec = {'pseed': pseed, 'runs': 0, 'viol': [], 'queued': 0}
+        try:
+            base = ER.run_program(spec, ER.Policy(random.Random(pseed + 1), early_p=0.3))
+            cancels = [None] + [rng.randrange(0, max(1, base['handles'])) for _ in range(4)]
+            for k, ca in enumerate(cancels):
+                tr = base if k == 0 else ER.run_program(spec, ER.Policy(random.Random(pseed + 1 + k), early_p=rng.choice([0.0, 0.3]),
+                                                                        cancel_at=ca))
+                rec['runs'] += 1
+                v = monitors.c13(tr)
+                if v:
+                    rec['viol'] = v
+                    rec['spec'], rec['choices'] = spec, tr['choices']
+                    break
+        except Exception as e:  # noqa
+            rec['harness_error'] = repr(e)[:300]
+        out.append(rec)
+    return out
+
+
+def saturated_pool(n):
+    import multiprocessing as mp
+    rng = random.Random(C.seed() * 53 + 13)
+    seeds = [rng.randrange(1 << 40) for _ in range(n)]
+    chunks = [seeds[i:i + 10] for i in range(0, len(seeds), 10)]
+    recs = []
+    with mp.get_context('fork').Pool(NPROC) as pool:
+        for r in pool.imap_unordered(_sat_worker, chunks):
+            recs += r
+    stats = {'saturated_pool_programs': len(recs), 'saturated_pool_runs': sum(r['runs'] for r in recs),
+             'saturated_pool_harness_errors': sum(1 for r in recs if r.get('harness_error'))}
+    return stats, [r for r in recs if r['viol']]
 
 
 def summarize(recs):
@@ -359,6 +409,19 @@ def main_for(pid, tier_):
             raise C.ToolFailure('model-schedule exploration: the model gets stuck / refuses a step inside the fragments: '
                                 + json.dumps(bad[:3]) + json.dumps({k: v for k, v in st.items() if k != 'by_shape'}))
         extra = {'model_schedule_exploration': st}
+    if pid == 'C13':
+        stats, bad = saturated_pool(300 if tier_ == 'quick' else 3000)
+        extra = stats
+        if stats['saturated_pool_harness_errors'] > max(3, stats['saturated_pool_programs'] // 20):
+            raise C.ToolFailure(f'saturated-pool phase: {stats["saturated_pool_harness_errors"]} harness errors')
+        if bad:
+            r = min(bad, key=lambda x: len(x['spec']['nodes']))
+            C.report_violation(pid, {'property': pid, 'kind': 'failing-input', 'what': {'C13': r['viol']}, 'spec': r['spec'],
+                                     'choices': r['choices'], 'pseed': r['pseed'],
+                                     'note': 'saturated virtual pool (spec.pool_capacity): trace-only, no lock-step'})
+            finish(pid, tier_, recs, aud, T, prof, SCHED_TEXT.format(profiles=prof['profiles'], enum=enum), extra_cov=extra,
+                   quiet=True)
+            return C.EXIT_VIOLATION
     if pid == 'C03':
         from . import multirun
         stats, bad = multirun.c03_histories(400 if tier_ == 'quick' else 4000)
@@ -414,7 +477,8 @@ def replay(path):
     sys.path.insert(0, str(C.REPO))
     doc = json.loads(open(path).read())
     tr = ER.run_program(doc['spec'], ER.ScriptPolicy(doc['choices']))
-    div = lockstep.lockstep_many([tr])[0]
+    # (a saturated virtual pool — spec.pool_capacity — is a trace-only phase: the model has no pool queue)
+    div = None if doc['spec'].get('pool_capacity') else lockstep.lockstep_many([tr])[0]
     sem = json.loads(C.run_driver(['sem'], [json.dumps({'graph': tr['graph'], 'spec': tr['spec']})])[0])
     infrag, _ = fragment.in_fragment(tr['graph'])
     print('verdict:', tr['verdict'], 'result:', tr['results'])
